@@ -225,6 +225,18 @@ T = {
              "+f for any fraction with a non-zero numerator: +(2/3) == -2/3", ["C16"]),
  "M-C20-4": ("C20", "the fix f722f16 undone: `floored <= Exponent` instead of std::cmp_less_equal (scaled_integer/math.h)",
              "exp2 on scaled_integer<uint32_t, power<E>>, E < 0: rep 1 for every input", ["C20"]),
+ "M-C16-7": ("C16", "operator==(fraction, fraction) gains an early-out: equal numerators compare equal iff the denominators are equal (fraction/operators.h)",
+             "both numerators zero and different denominators: 0/3 == 0/5 and 0/1 == 0/-1 are false while != is false too", ["C16"]),
+ "M-C19-7": ("C19", "integer sqrt: a run-time shortcut through std::sqrt(double) for built-in types of at most 8 bytes, guarded by !std::is_constant_evaluated() (cmath/sqrt.h)",
+             "run-time evaluation, a 64-bit rep and a value above 2^53 that rounds up into a perfect square: sqrt(2^64 - 1) == 2^32, sqrt(r*r - 1) == r for r > 2^27", ["C19"]),
+ "M-C07-7": ("C07", "the trapping tag's negative-overflow handler returns unreachable<>() instead of abort<>() (copy of undefined.h) (overflow/trapping.h)",
+             "NDEBUG build, trapping_overflow_tag, an arithmetic operator overflowing downwards: 0u - 1u, INT_MIN << 1 run into __builtin_unreachable", ["C07", "C06"]),
+ "M-C08-7": ("C08", "nearest divide: `if constexpr (is_unsigned_v<Lhs> || is_unsigned_v<Rhs>)` shortcut (lhs + rhs / 2) / rhs that skips the sign tests (rounding/nearest_rounding_tag.h)",
+             "fundamental operands of mixed signedness whose common type is signed, the signed one negative: int8_t{-9} / uint8_t{6} == -1, uint32_t{4000000001} / int64_t{-2} == -2000000000", ["C08", "C11"]),
+ "M-C20-5": ("C20", "evaluate_polynomial: a small-fraction shortcut returning a1*x + a2*x^2 when x < 2^-(digits/4) (scaled_integer/math.h)",
+             "a 32-bit rep, exponent -11 or lower, fractional part in about [0.0030, 0.0039), integer part at the top of the range: exp2 three units low", ["C20"]),
+ "M-C10-5": ("C10", "uintwide_t::predecrement: the borrow loop tests (*it++ + 1U) == 0U instead of comparing with the limb type's max: never true for promoted 8/16-bit limbs (ckormanyos/uintwide_t.h)",
+             "--x / x-- on a multi-limb wide_integer with 8- or 16-bit limbs and a lowest limb of zero: --256 == 511", ["C10"]),
  "M-C11-7": ("C11", "neg_inf divide: the floor correction looks at the remainder's sign only and ignores the divisor's (rounding/neg_inf_rounding_tag.h)",
              "static_integer / static_number with neg_inf_rounding_tag, negative divisor, inexact quotient: 7 / -2 == -3", ["C11", "C08"]),
  "M-C03-6": ("C03", "common_elastic_type: max(Digits1, Digits2) - 1 digits for the type both operands of a mixed elastic comparison are cast to (elastic_integer/custom_operator.h)",
@@ -254,6 +266,11 @@ HIST = {
  "M-C02-6": "NOT reported: inside Knuth's division (see M-C04-5); the third seeded change in that function, which sub-agents reach for once everything else in the multi-limb back end is decided",
  "M-C11-7": "reported by C08, the owner of the rounding layer's division (as M-C11-2)",
  "M-C12-6": "reported by C01, which owns the mixed-exponent alignment incl. radix 10; C12's native-tag wrappers are radix 2",
+ "M-C08-7": "missed at first: the direction lines pinned a divisor of the dividend's own type only. Mixed-signedness lines (six type pairs with a signed common type, wrapper and built-in divisor) added; they report it, and on the pinned tree they found defect D24 (tie_to_pos_inf negating a uint32_t dividend in its own type), fixed in 10fd667",
+ "M-C20-5": "missed at first: the exp2 structure kernels cut evaluate_polynomial out as an uninterpreted function and nothing else looked inside it for x != 0. Horner kernel added (evaluate_polynomial of the 32-bit format == the degree-7 recurrence for every x); the 8/16-bit formats are not claimed (normaliser incompleteness, see the spec)",
+ "M-C19-7": "not reported as a violation: C19 exits 2 (analysis-broken) - the run-time shortcut removes both loops from every compiled instance, so the start-bit and termination rules lose all their instances and the floors fail. Whether floor(sqrt(double(x))) is the integer square root is a floating-point question the check does not decide",
+ "M-C10-5": "reported by the limb algebra's -- kernels of the 8- and 16-bit limb types (C10)",
+ "M-C07-7": "reported by the reachability rule: an internal unreachable state in the NDEBUG kernels of the trapping tag (C07), and by C06's handler lines",
  "M-C20-4": "reported by the exp2 structure kernels of the unsigned 32-bit reps (the defect D23 coming back)",
  "M-C10-4": "NOT reported: inside Knuth's division (see M-C04-5)",
  "M-C01-6": "missed at first: no elastic rep with digits + shift at a 32 / 64 boundary was in the matrix; six boundary pairs added (which needed one more normaliser rule: sign extension of a shift through an immaterial zero extension)",
